@@ -13,4 +13,10 @@ impl Operation {
     pub fn get_minimum_match_length(&self) -> (r: usize)
         ensures r == min_len(*self),
     { unimplemented!() }
+
+    // the same forwarding for contains_capturing_expressions (trait default: false, the `_ =>` arm of the specification)
+    #[verifier::external_body]
+    pub fn contains_capturing_expressions(&self) -> (r: bool)
+        ensures r == below_has_capture(*self),
+    { unimplemented!() }
 }
